@@ -29,6 +29,7 @@ Guard(s, i) ==
     [] op.k \in {"settag", "deltag"} -> op.id \in NamesOf(s)
     [] op.k = "flush" -> s.queue # <<>>
     [] op.k = "unused" -> TRUE
+    [] op.k = "validate" -> s.lines # <<>>
     [] op.k \in {"rsc", "rsl"} -> s.lines # <<>>
     [] OTHER -> FALSE
 
